@@ -187,6 +187,13 @@ std::vector<K> gen_keys(TapeReader &t, const GenOpts &o, KeyMeta &meta) {
         case 3: target = 32768 - 64 + t.below(129); meta.size_class = "threshold"; break;
         default: target = 32768 + t.below(200000 - 32768 + 1); meta.size_class = "large"; break;
     }
+    // "huge" class (only engines that raise max_n): 2^20 .. 2^23 keys, about 1 case in 300: segments spanning up to millions of
+    // positions probe the precision of float slopes close to the documented 2^24 limit
+    if (o.max_n > 200000 && o.size_hint >= 97 && t.chance(1, 10)) {
+        target = (size_t(1) << 20) + t.below(7 * (size_t(1) << 20));
+        meta.size_class = "huge";
+        cls = 4;
+    }
     target = std::min(target, o.max_n);
     meta.threads = o.allow_threads ? 1 + (int) t.below(20) : 1;
     rec << "class=" << meta.size_class << " target_n=" << target << " threads=" << meta.threads;
